@@ -170,8 +170,12 @@ XLSX_MODELS = [
     {'Q': {'A1': 'Y', 'A2': 'N', 'A3': 'Y', 'A4': 'E', 'A5': '#', 'A6': 'mp', 'B1': 10, 'B2': 20, 'B3': 30, 'C1': True, 'C2': False,
            'D1': '=COUNTIF(A1:A6,"Y")', 'D2': '=SUMIF(A1:A3,"Y",B1:B3)', 'D3': '=COUNTA(A1:A6)', 'D4': '=IF(A1="Y","yes","no")',
            'D5': '=C1&""', 'D6': '=SUM(C1:C2)', 'D7': '=ISLOGICAL(C2)', 'D8': '=COUNT(B1:C2)'}},
+    {'U': {'A1': ('text', ' =1+1'), 'A2': ('text', '{=1+1}'), 'A3': ('text', '#empty'), 'A4': ('text', '  = 2'), 'A5': ('text', '#N/A'),
+           'A6': ('text', '#REF!x'), 'A7': ('text', '#EMPTY'), 'B1': '=LEN(A1)', 'B2': '=A2&"!"', 'B3': '=ISBLANK(A3)', 'B5': '=ISERROR(A5)',
+           'B6': '=ISTEXT(A6)'}},
     {'T': {'A1': ('text', '=say "hi"'), 'A2': ('text', '=plain'), 'A3': ('text', 'a "quoted" word'), 'A4': ('text', '="'),
            'B1': '=LEN(A1)', 'B2': '=A2&"!"', 'B3': '=A3', 'B4': '=LEN(A4)'}},
+    {'N': {'A1': ('text', '=a\nb'), 'A2': '="x"&CHAR(10)&"y"', 'B1': '=LEN(A1)'}},          # a line break inside a text literal (KF-C09-1)
 ]
 
 
@@ -228,8 +232,10 @@ def _check_xlsx(i):
 
 BOUNDED = [
     Stage('B3:json-round-trip-of-workbooks-loaded-from-file', 'C09', _xlsx_cases, _check_xlsx,
-          '6 small workbooks written to a scratch directory (dangling sheet / file / name references, unknown functions, whole-column and '
-          'intersection references, sheet names that need quoting, text cells that look like formulas and contain quotes), loaded from file, exported and re-imported', parallel=False),
+          '8 small workbooks written to a scratch directory (dangling sheet / file / name references, unknown functions, whole-column and '
+          'intersection references, sheet names that need quoting, text cells that look like formulas / errors / blanks and contain quotes, a line '
+          'break inside a text literal), loaded from file, exported and re-imported', parallel=False,
+          classify=lambda case, detail: 'KF-C09-1' if XLSX_MODELS[case] is XLSX_MODELS[-1] else None),
     Stage('B1:exported-text-parses-back-to-the-same-formula', 'C09', _reparse_cases, _check_reparse,
           'random trees of the C01 generator (depth 1..4, 2 spelling styles) and reference expressions (range / intersection / union, '
           'nested to depth 2) as function arguments: get_expr(ast("=" + get_expr(ast(f)))) == get_expr(ast(f)); 2500 quick / about 240000 thorough',
